@@ -71,12 +71,20 @@ def orbit_events(g, n, rng, quick):
     import graphiq.utils.relabel_module as rm
     evs = []
 
+    def by_position(h):
+        # a returned graph that still has the caller's (shuffled) insertion order is the caller's own labelled graph:
+        # read it in the library's convention, by position
+        nodes = list(h.nodes())
+        if nodes != sorted(nodes) and sorted(nodes) == list(range(n)):
+            return nx.relabel_nodes(h, {v: k for k, v in enumerate(nodes)})
+        return h
+
     def rec(via, f, distinct):
         try:
             with warnings.catch_warnings():
                 warnings.simplefilter("ignore")
                 res = f()
-            out = {"err": "", "graphs": [graph_out(h, n) for h in res]}
+            out = {"err": "", "graphs": [graph_out(by_position(h), n) for h in res]}
         except Exception as ex:
             out = {"err": type(ex).__name__, "graphs": []}
         evs.append({"fn": "orbit", "via": via, "distinct": distinct, "out": out})
@@ -94,6 +102,21 @@ def orbit_events(g, n, rng, quick):
             lambda: rm.lc_orbit_finder(g.copy(), comp_depth=depth, orbit_size_thresh=size, with_iso=with_iso,
                                        rand=rand, rep_allowed=rep),
             distinct=(not rep))
+    # the same state handed over as a graph with another node INSERTION order (the explorers work on positions and return
+    # graphs labelled 0..n-1, so the position view - this trace's base - is what the results are held against)
+    order = list(range(n))
+    while n >= 2 and order == list(range(n)):
+        rng.shuffle(order)
+    gsh = nx.Graph()
+    gsh.add_nodes_from(order)
+    gsh.add_edges_from((order[a], order[b]) for a, b in g.edges())
+    for depth, size, with_iso, rand, rep in ((2, None, False, False, False), (3, 6, False, True, False)):
+        np.random.seed(rng.randrange(2 ** 31))
+        rec(f"lc_orbit_finder:shuffled-insertion(depth={depth},rand={rand})",
+            lambda: rm.lc_orbit_finder(gsh.copy(), comp_depth=depth, orbit_size_thresh=size, with_iso=with_iso,
+                                       rand=rand, rep_allowed=rep), distinct=False)
+    if nx.is_connected(g) and n >= 2:
+        rec("depth_first_orbit:shuffled-insertion", lambda: rm.depth_first_orbit(gsh.copy()), distinct=False)
     if nx.is_connected(g) and n >= 2:
         rec("depth_first_orbit", lambda: rm.depth_first_orbit(g.copy()), distinct=False)
     degs = sorted(d for _, d in g.degree())
